@@ -160,6 +160,7 @@ func genRecv(root *pkg) *genFile {
 	g := newGen("RecvSwitch")
 	d, e, cs, a := recvShape(root.fn("Client", "recv"))
 	g.def("clientDefers", "List String", leanStrList(d), "defer statements of Client.recv")
+	g.def("clientRecvFuncLits", "List (List String)", leanStrListList(funcLits(root.fn("Client", "recv"))), "function literals inside Client.recv (stopKeepalive and the once.Do body)")
 	g.def("clientErrBranch", "List String", leanStrList(e), "actions when NextPacket returns an error")
 	g.def("clientCases", "List (List String × List String)", leanCases(cs), "type switch of Client.recv: (types, actions) per case")
 	g.def("clientAfterSwitch", "List String", leanStrList(a), "statements after the switch, inside the loop")
